@@ -2,6 +2,9 @@
 (src/props/cNN.rs); this table only holds what the runner needs."""
 
 PROPS = {
+    "C15": dict(level="exploration", shards=16, thorough_layers=["miri"], layer_cfg={"miri": dict(shards=8, timeout=2400)}),
+    "C06": dict(level="fault_enumeration", shards=16, thorough_layers=[]),
+    "C10": dict(level="fault_enumeration", shards=16, thorough_layers=[]),
     "C04": dict(level="exploration", shards=16, thorough_layers=[]),
     "C19": dict(level="exploration", shards=16, thorough_layers=["miri"],
                 layer_cfg={"miri": dict(shards=8, timeout=1500)}),
